@@ -76,6 +76,13 @@ def _fold(node, env):
             return STDLIB[t]
         return _NO
     if isinstance(node, ast.Call) and isinstance(node.func, ast.Name) and \
+            node.func.id == 'getattr' and len(node.args) >= 2 and \
+            isinstance(node.args[1], ast.Constant):
+        t = '%s.%s' % (unparse(node.args[0]), node.args[1].value)
+        if t in STDLIB:
+            return STDLIB[t]
+        return _NO
+    if isinstance(node, ast.Call) and isinstance(node.func, ast.Name) and \
             node.func.id in ('frozenset', 'set', 'tuple', 'list', 'sorted', 'dict') and \
             not node.keywords:
         if not node.args:
@@ -431,6 +438,11 @@ def _cache_problem(f):
                'argument is looked up by identity/equality, its state may change)' % sorted(reads)[:3]
     scalar = {'bool', 'int', 'float', 'str', 'bytes'}
     for n in own_nodes(f.node):
+        if isinstance(n, ast.Call) and isinstance(n.func, ast.Name) and \
+                n.func.id in ('repr', 'str', 'type', 'format') and n.args and \
+                isinstance(n.args[0], ast.Name) and n.args[0].id in params:
+            return 'the result is the %s() of the argument, which differs for 1, 1.0 and True ' \
+                   'although they are one cache key' % n.func.id
         if isinstance(n, ast.Call) and isinstance(n.func, ast.Name) and n.func.id == 'isinstance' \
                 and len(n.args) == 2 and isinstance(n.args[0], ast.Name) and n.args[0].id in params:
             names = {x.id for x in ast.walk(n.args[1]) if isinstance(x, ast.Name)}
